@@ -172,8 +172,11 @@ Fixpoint prep_all (p : pol) (es : list event) : option (list event) :=
               end
   end.
 
+(** events start <= ii < stop; the bounds are clipped to the length of the list
+    first so that the default stop = 4294967295 does not become a unary number *)
 Definition window (es : list event) (start stop : Z) : list event :=
-  firstn (Z.to_nat (stop - start)) (skipn (Z.to_nat start) es).
+  let len := Z.of_nat (length es) in
+  firstn (Z.to_nat (Z.min (stop - start) len)) (skipn (Z.to_nat (Z.min start len)) es).
 
 Inductive w_result :=
 | WReturn (n : Z) (file : option (list Z))   (* file removed when n = 0 *)
